@@ -290,6 +290,65 @@ def run(ck, only=None):
         ck.extra["attribute_cases"] = len(info)
         ck.extra["attribute_cases_accepted_by_clang"] = nacc
 
+    # ---- (vi) option PAIRS on rich feature headers -------------------------------------
+    if not only or only.get("kind") == "pair":
+        rich_c = c13.FEAT_C + """
+struct NE { enum { NE_A, NE_B, NE_C = 1 } e; union { enum { NU_X, NU_Y } ux; int i; }; struct { enum { NS_P = 3 } p; } inner; };
+union UE { enum { UE_A = 5, UE_B } k; int v; };
+enum { TOPANON_A, TOPANON_B = 9 };
+typedef enum { TD_A, TD_B } td_enum_t;
+struct BFE { enum E be:3; unsigned :0; int z; td_enum_t t:2; };
+struct Deep { struct { struct { union { int a; float b; } u; } l2; } l1; int (*cb)(struct Deep *, enum F); };
+typedef struct { int anon_x; } anon_td_t; typedef union { int au; } anon_tu_t;
+extern anon_td_t g_anon; const int k_const = 3; static const long long k_big = 1LL << 40;
+"""
+        rich_cpp = c13.FEAT_CPP + """
+class CE { public: enum { CE_A, CE_B }; enum class Sc : short { P, Q } sc; enum Named { N0 } n; union { enum { CU_A } cu; int ci; }; };
+namespace nse { enum { NSE_A = 1 }; struct H { enum { H_A, H_B } h; }; }
+template <typename T> struct TE { enum { TE_A } te; T t; };
+struct UsesTE { TE<int> a; };
+"""
+        hp_c, hp_cpp = os.path.join(wd, "rich.h"), os.path.join(wd, "rich.hpp")
+        open(hp_c, "w").write(rich_c)
+        open(hp_cpp, "w").write(rich_cpp)
+        rows = [r for r in c13.rows() if r["name"] not in ("represent-cxx-operators", "use-distinct-char16-t") and not any(x in r["name"] for x in ("depfile", "wrap-static", "emit-ir", "rustfmt-conf"))]
+        pairs = [(a, b) for i, a in enumerate(rows) for b in rows[i + 1:]]
+        if ck.tier != "thorough":
+            # options about one subject interact most: every pair inside a subject group is always run
+            groups = [("enum",), ("alias", "typedef"), ("union", "copy"), ("derive", "impl-"), ("namespace", "c-naming", "cxx"), ("layout", "padding", "align", "opaque")]
+
+            def grp(r):
+                return {gi for gi, keys in enumerate(groups) if any(k2 in r["name"] for k2 in keys)}
+            pairs = [p for k, p in enumerate(pairs) if (k + ck.seed) % 8 == 0 or (grp(p[0]) & grp(p[1]))]
+            ck.cap("quick tier: every pair inside a subject group (enum, alias, union, derive, naming, layout) plus a rotated eighth of the other pairs; thorough: all pairs")
+
+        def split(fl):
+            fl = c13.subst(fl, wd)
+            if "--" in fl:
+                k = fl.index("--")
+                return fl[:k], fl[k + 1:]
+            return fl, []
+
+        jobs, info = [], {}
+        for k, (a, b) in enumerate(pairs):
+            fa, ca = split(a["flags"])
+            fb, cb = split(b["flags"])
+            for lang, hp, tail in (("c", hp_c, []), ("cpp", hp_cpp, ["-x", "c++", "-std=c++14"])):
+                jid = f"p|{a['name']}|{b['name']}|{lang}"
+                if only and only.get("pair") != jid:
+                    continue
+                jobs.append({"id": jid, "args": [hp] + fa + fb + ["--"] + ca + cb + tail, "text": False, "timeout": 60})
+                info[jid] = (a["name"], b["name"], lang)
+        res = common.run_jobs(jobs, wd, timeout=60)
+        for jid, (an, bn2, lang) in info.items():
+            ck.count()
+            r = res[jid]
+            if r["status"] == "crash" and r.get("exit_code") == 2:
+                continue  # refused by the CLI parser (same flag twice / conflicting flags): an error value
+            ck.nontriv(("pair", an, bn2))
+            judge(ck, f"option-pair [{an}] + [{bn2}] hdr=rich-{lang}", {"kind": "pair", "pair": jid}, r, None, None)
+        ck.extra["option_pair_runs"] = len(info)
+
     # ---- (iii) option rows on repository headers -----------------------------------
     if not only or only.get("kind") == "option":
         rows = [r for r in c13.rows() if r["name"] not in ("represent-cxx-operators", "use-distinct-char16-t")]
@@ -377,7 +436,11 @@ def run(ck, only=None):
             ("edition-2024-on-1.82", [P("plain.h"), "--rust-target", "1.82", "--rust-edition", "2024"], "UnsupportedEdition"),
             ("bad-clang-arg", [P("plain.h"), "--", "--target=not-a-real-triple"], "clang"),
             ("second-header-missing", [P("plain.h"), "--", "-include", P("missing_second.h")], "clang"),
+            ("system-header-nostdinc", [P("sysinc.h"), "--", "-nostdinc"], "clang"),
+            ("system-header-default", [P("sysinc.h")], "ok"),
+            ("system-header-bad-sysroot", [P("sysinc.h"), "--", "--sysroot=/nonexistent-sysroot", "-nostdinc"], "clang"),
         ]
+        open(P("sysinc.h"), "w").write("#include <stdint.h>\n#include <stddef.h>\nuint32_t sys_fn(size_t n);\n")
         jobs = [{"id": f"f|{n}", "args": a, "text": False, "timeout": 30} for n, a, _ in faults if not only or only.get("fault") == n]
         res = common.run_jobs(jobs, wd, timeout=30)
         for n, a, exp in faults:
@@ -398,6 +461,27 @@ def run(ck, only=None):
                     judge(ck, case, det, r, None, None)
                 elif not (r["status"] == "err" and r.get("err_kind") == exp):
                     ck.violation(case + " wrong-error", dict(det, why=f"expected the specific error {exp}, got {r['status']} {r.get('err_kind')} {str(r.get('err'))[:200]}"))
+        # the same inputs as the SECOND generation of a process whose first generation was an ordinary one: the verdict may not
+        # depend on what an earlier generation found out about the system
+        hjobs = [{"id": f"h|{n}", "mode": "history", "fresh": True, "timeout": 60, "jobs": [{"args": [P("sysinc.h")]}, {"args": a}]}
+                 for n, a, _ in faults if (not only or only.get("fault") == n) and f"f|{n}" in res]
+        hres = common.run_jobs(hjobs, wd, timeout=60)
+        for n, a, exp in faults:
+            h = hres.get(f"h|{n}")
+            if h is None or f"f|{n}" not in res:
+                continue
+            ck.count()
+            ck.nontriv(("fault-after-generation", n))
+            solo = res[f"f|{n}"]
+            if h.get("status") != "ok" or len(h.get("outs", [])) < 2:
+                if solo["status"] in ("ok", "err"):
+                    ck.violation(f"fault {n} after-another-generation process-died", {"kind": "fault", "fault": n, "why": f"alone: {solo['status']}; as second generation the process ended: {str(h)[:200]}"})
+                continue
+            second = h["outs"][1]
+            first_line = lambda o: str(o.get("err") or "").strip().split("\n")[0][:120]
+            if second.get("status") != solo.get("status") or (solo.get("status") == "err" and first_line(second) != first_line(solo)):
+                ck.violation(f"fault {n} after-another-generation verdict-differs", {"kind": "fault", "fault": n,
+                             "why": f"alone: {solo.get('status')} {first_line(solo)!r}; as the second generation of a process: {second.get('status')} {first_line(second)!r}"})
         os.chmod(P("mode000.h"), 0o644)
         os.chmod(P("mode200.h"), 0o644)
     ck.assume("classification oracle: the clang 14 binary with the same arguments as libclang 14 receives (calibrated per header on the "
